@@ -620,26 +620,31 @@ class Union(Structure, metaclass=UnionMetaType):
         object.__setattr__(self, "_sizes", sizes)
 
     def _proxify(self) -> None:
-        def _proxy_structure(value: Structure, attr: str | None = None) -> None:
+        def _proxy_structure(value: Structure, path: tuple[str, ...]) -> None:
             for field in value.__class__.__fields__:
                 if issubclass(field.type, Structure):
                     nested_value = getattr(value, field._name)
-                    # Nested structures rebuild the union through the top-level member they belong to
-                    proxy = UnionProxy(self, attr or field._name, nested_value)
-                    object.__setattr__(value, field._name, proxy)
-                    _proxy_structure(nested_value, attr or field._name)
+                    if isinstance(nested_value, UnionProxy):
+                        # Already proxied by a nested union, which is a member of (a member of) this union
+                        nested_value = nested_value.__target__
 
-        _proxy_structure(self)
+                    # Nested structures rebuild the union through the top-level member they belong to
+                    nested_path = (*path, field._name)
+                    proxy = UnionProxy(self, nested_path, nested_value)
+                    object.__setattr__(value, field._name, proxy)
+                    _proxy_structure(nested_value, nested_path)
+
+        _proxy_structure(self, ())
 
 
 class UnionProxy:
     __union__: Union
-    __attr__: str
+    __path__: tuple[str, ...]
     __target__: Structure
 
-    def __init__(self, union: Union, attr: str, target: Structure):
+    def __init__(self, union: Union, path: tuple[str, ...], target: Structure):
         object.__setattr__(self, "__union__", union)
-        object.__setattr__(self, "__attr__", attr)
+        object.__setattr__(self, "__path__", path)
         object.__setattr__(self, "__target__", target)
 
     def __len__(self) -> int:
@@ -658,8 +663,24 @@ class UnionProxy:
         return getattr(self.__target__, attr)
 
     def __setattr__(self, attr: str, value: Any) -> None:
-        setattr(self.__target__, attr, value)
-        self.__union__._rebuild(self.__attr__)
+        # Every rebuild of the union replaces the values of its members, so look up the structure as it is now,
+        # a proxy that was obtained before an earlier assignment must not write back what it was created with
+        target = self.__union__
+        nested_unions = []
+        for i, name in enumerate(self.__path__):
+            target = getattr(target, name)
+            if isinstance(target, UnionProxy):
+                target = target.__target__
+            if isinstance(target, Union) and i + 1 < len(self.__path__):
+                nested_unions.append((target, self.__path__[i + 1]))
+
+        setattr(target, attr, value)
+        object.__setattr__(self, "__target__", target)
+
+        # Unions nested along the way have to reflect the new bytes before the members that contain them are written
+        for nested_union, name in reversed(nested_unions):
+            nested_union._rebuild(name)
+        self.__union__._rebuild(self.__path__[0])
 
 
 def attrsetter(path: str) -> Callable[[Any], Any]:
